@@ -118,18 +118,19 @@ func ident(s string) string {
 }
 
 type fn struct {
-	spec      Spec
-	pkg       *packages.Package
-	decl      *ast.FuncDecl
-	free      []string          // free terms, in order of first occurrence (Lean names)
-	freeT     map[string]string // Lean name -> source text
-	freeK     map[string]kind
-	freeN     map[string]string   // Lean name -> normalised definition (parameters by position, local aliases expanded)
-	alias     map[string]ast.Expr // opaque local variable -> the expression it was defined as
-	parIx     map[string]int      // parameter / receiver name -> position
-	calls     map[string]bool     // listed functions called (Lean names)
-	skipped   []string            // calls made for an effect the model does not carry
-	prefixLen int                 // Prefix mode: how many top-level statements were translated
+	spec        Spec
+	pkg         *packages.Package
+	decl        *ast.FuncDecl
+	free        []string          // free terms, in order of first occurrence (Lean names)
+	freeT       map[string]string // Lean name -> source text
+	freeK       map[string]kind
+	freeN       map[string]string   // Lean name -> normalised definition (parameters by position, local aliases expanded)
+	alias       map[string]ast.Expr // opaque local variable -> the expression it was defined as
+	parIx       map[string]int      // parameter / receiver name -> position
+	calls       map[string]bool     // listed functions called (Lean names)
+	skipped     []string            // calls made for an effect the model does not carry
+	prefixLen   int                 // Prefix mode: how many top-level statements were translated
+	windowFirst int                 // Prefix mode with a window: index of the first translated statement
 	// fieldSet: a field of an opaque variable the function has assigned (`position.PositionHealth = h`): later reads read the assigned value
 	fieldSet map[string]string
 	// assignedNames: every identifier the function body assigns (`x = ..`, `x := ..`, `x++`): a scalar parameter that is NOT among them keeps
@@ -975,6 +976,23 @@ func (t *tr) stmts(list []ast.Stmt, tail []string) []string {
 				}
 				for j := 0; j < upto; j++ {
 					id, ok := x.Lhs[j].(*ast.Ident)
+					if sel, isSel := x.Lhs[j].(*ast.SelectorExpr); !ok && isSel {
+						// mtp.MtpHealth, err = k.GetMTPHealth(ctx, *mtp, ..): a field of an opaque variable takes a result of the read
+						if rid := t.rootIdent(sel); rid != nil {
+							if v, isVar := t.f.pkg.TypesInfo.Uses[rid].(*types.Var); isVar && kindOf(v.Type()) == kOpaque {
+								if lk := kindOf(t.typeOf(sel)); lk == kDec || lk == kInt || lk == kMach || lk == kBool {
+									suffix := fmt.Sprintf("#%d", j)
+									if upto == 1 {
+										suffix = ""
+									}
+									tmp := t.fresh()
+									b.add(fmt.Sprintf("let %s := %s", tmp, t.freeResult(call, j, lk, suffix)))
+									t.f.fieldSet[t.text(sel)] = tmp
+									continue
+								}
+							}
+						}
+					}
 					if !ok {
 						t.bad(x, "tuple assignment to a non-variable")
 					}
@@ -1298,7 +1316,22 @@ func (t *tr) function() string {
 				}
 			}
 		}
-		for n := start; n >= 1 && !done; n-- {
+		first := 0
+		if from, ok := windowFrom[f.spec.Lean]; ok {
+			// a window: the statements from the first one that contains `from` (what is computed before it is outside the definition)
+			first = -1
+			for i, st := range f.decl.Body.List {
+				if strings.Contains(t.text(st), from) {
+					first = i
+					break
+				}
+			}
+			if first < 0 {
+				panic(translErr{f.spec.Func + ": window start not found: " + from})
+			}
+		}
+		f.windowFirst = first
+		for n := start; n >= first+1 && !done; n-- {
 			func() {
 				defer func() {
 					if r := recover(); r != nil {
@@ -1309,7 +1342,7 @@ func (t *tr) function() string {
 				}()
 				f.free, f.freeT, f.freeK, f.freeN = nil, map[string]string{}, map[string]kind{}, map[string]string{}
 				f.alias, f.skipped, f.tmp, f.fieldSet = map[string]ast.Expr{}, nil, 0, map[string]string{}
-				lines := t.stmts(f.decl.Body.List[:n], []string{"pure true"})
+				lines := t.stmts(f.decl.Body.List[first:n], []string{"pure true"})
 				body = append(pre, lines...)
 				f.prefixLen = n
 				done = true
@@ -1361,7 +1394,11 @@ func (t *tr) function() string {
 		out = append(out, fmt.Sprintf("-- free term `%s` = %s", n, f.freeT[n]))
 	}
 	if f.spec.Prefix {
-		out = append(out, fmt.Sprintf("-- PREFIX: the first %d of %d top-level statements (the guards in front of the effects)", f.prefixLen, len(f.decl.Body.List)))
+		if f.windowFirst > 0 {
+			out = append(out, fmt.Sprintf("-- WINDOW: top-level statements %d to %d of %d (what is computed before the window is outside this definition)", f.windowFirst+1, f.prefixLen, len(f.decl.Body.List)))
+		} else {
+			out = append(out, fmt.Sprintf("-- PREFIX: the first %d of %d top-level statements (the guards in front of the effects)", f.prefixLen, len(f.decl.Body.List)))
+		}
 	}
 	out = append(out, fmt.Sprintf("def %s %s : Except Err %s := do", f.spec.Lean, strings.Join(params, " "), rt))
 	for _, l := range body {
